@@ -161,6 +161,12 @@ var funcSpecs = []funcSpec{
 	{rel: "cmd/age", name: "(*lazyOpener).Close", opaque: map[string]string{"os.File": "φ"}},
 	{rel: "cmd/age", name: "decrypt", abstract: []string{"armor.NewReader", "age.Decrypt", "io.Copy"}, exits: []string{"main.errorf", "main.errorWithHint"},
 		opaque: map[string]string{"age.Identity": "ι", "io.Writer": "δ"}, threaded: map[string][]string{"io.Copy": {"out"}}},
+	{rel: "plugin", name: "NewRecipient", opaque: map[string]string{"plugin.ClientUI": "υ"}},
+	{rel: "plugin", name: "NewIdentity", opaque: map[string]string{"plugin.ClientUI": "υ"}},
+	{rel: "plugin", name: "NewIdentityWithoutData", opaque: map[string]string{"plugin.ClientUI": "υ"}},
+	{rel: "plugin", name: "(*Identity).Recipient", opaque: map[string]string{"plugin.ClientUI": "υ"}},
+	{rel: "internal/format", name: "DecodeString", opaque: map[string]string{"base64.Encoding": "ε"}},
+	{rel: "agessh", name: "sshFingerprint", abstract: []string{"format.EncodeToString"}, opaque: map[string]string{"ssh.PublicKey": "π"}},
 	{rel: "", name: "ParseRecipients", abstract: []string{"age.ParseX25519Recipient"}, opaque: map[string]string{"Recipient": "κ", "X25519Recipient": "κ"}, errInts: true},
 }
 
@@ -208,6 +214,7 @@ var stdlibPure = map[string]string{
 	"strings.LastIndex":    "Go.strings_LastIndex",
 	"bytes.HasPrefix":      "Go.strings_HasPrefix",
 	"strings.Count":        "Go.strings_Count",
+	"strings.ContainsAny":  "Go.bytes_ContainsAny",
 	"bytes.TrimSuffix":     "Go.strings_TrimSuffix",
 	"bytes.Equal":          "Go.bytes_Equal",
 }
@@ -445,6 +452,11 @@ func kindOf(t types.Type) string {
 func (c *fctx) zero(n ast.Node, t types.Type) string {
 	if nt, ok := t.(*types.Named); ok && nt.Obj().Pkg() == nil && nt.Obj().Name() == "error" {
 		return "none"
+	}
+	// the nil of a type that is opaque here: an abstract constant
+	if lt, ok := leanTypeOf(t); ok && len([]rune(lt)) == 1 {
+		c.useAbstractName("nil_"+lt, "(nil_"+lt+" : "+lt+")")
+		return "nil_" + lt
 	}
 	{
 		bt := t
@@ -1238,6 +1250,10 @@ func (c *fctx) call(x *ast.CallExpr) string {
 				c.sites = append(c.sites, fmt.Sprintf("text %s (line %d): Sprintf(%q, …), opaque", an, c.t.pr.line(x.Pos()), msg))
 				c.useAbstractName(an, "("+an+" : (List UInt8))")
 				return an
+			}
+			if o.Pkg().Path() == "crypto/sha256" && o.Name() == "Sum256" {
+				c.useAbstractName("sha256_Sum256", "(sha256_Sum256 : (List UInt8) → Go.M (List UInt8))")
+				return "(← sha256_Sum256 " + c.expr(x.Args[0]) + ")"
 			}
 			if o.Pkg().Path() == "crypto/hmac" && o.Name() == "New" {
 				if c.t.pr.text(c.fi.Pkg, x.Args[0]) != "sha256.New" {
